@@ -78,6 +78,9 @@ def oracleFor (prop : String) (c : Cfg) (t : Spec.Trace) : Option Bool :=
   match prop with
   | "C08" => some (Spec.noPanic t)
   | "C10" => some (Spec.oracleC10 (kindOf c) t)
+  | "C01" => some (Spec.oracleC01 (kindOf c) t)
+  | "C05" => some (Spec.oracleC05 (kindOf c) c.ttl t)
+  | "C06" => some (Spec.oracleC06 (kindOf c) c.tti t)
   | _ => none
 
 structure Case where
